@@ -228,3 +228,65 @@ def special_C22(seed, tier, model, deadline):
             f = min(fs, key=lambda x: x['idx'])
             fails.append({'seed': seed, 'k': 'push-%d' % k, 'failure': f, 'ops': ops[:f['idx'] + 1]})
     return {'failures': fails, 'mismatches': mism, 'coverage': {'push_pressure_programs': progs, 'push_pressure_ops': nops}}
+
+
+def special_C28(seed, tier, model, deadline):
+    """determinism: the same programs are executed in separate interpreter processes under different PYTHONHASHSEED
+    values (and at different wall-clock times); every observation line (result, events, appended bytes, state peeks)
+    must be byte-identical to the in-process run, which in turn is compared with the model"""
+    import random
+    import subprocess
+    import time
+    from corr import gen_program, enc_json
+    from profiles import PROFILES
+    n = {'quick': 60, 'thorough': 1200}.get(tier, 60)
+    hashseeds = {'quick': ['0', '1', '4242'], 'thorough': ['0', '1', '2', '3', '77', '4242', 'random', 'random']}.get(tier, ['0', '1'])
+    progs, ref = [], []
+    profs = PROFILES['C28']
+    for k in range(n):
+        if time.time() > deadline:
+            break
+        rng = random.Random((seed * 40503 + k) & 0xFFFFFFFF)
+        p = profs[k % len(profs)]
+        r = gen_program(rng, None, mode=p['mode'], steps=p['steps'], weights=p.get('weights'), invalid=p.get('invalid', 0.15),
+                        stop_on_mismatch=False)
+        progs.append(r.ops)
+        ref.append([ol for op, ol, ml, obs in r.log])
+    payload = ''.join(json.dumps(enc_json(ops)) + '\n' for ops in progs).encode()
+    fails = []
+    runs = 0
+    for hs in hashseeds:
+        env = dict(os.environ, PYTHONHASHSEED=hs, H2_SRC=os.environ.get('H2_SRC', '/repo/src'))
+        pr = subprocess.run(['/venv/bin/python', os.path.join(HERE, 'detrun.py')], input=payload, stdout=subprocess.PIPE,
+                            stderr=subprocess.PIPE, env=env, timeout=1200)
+        lines = pr.stdout.decode().splitlines()
+        runs += 1
+        if pr.returncode != 0 or len(lines) != len(progs):
+            fails.append({'seed': seed, 'k': 'hashseed-%s' % hs, 'failure': {'clause': 'subprocess-run-failed', 'idx': 0,
+                          'detail': {'rc': pr.returncode, 'stderr': pr.stderr.decode()[-300:]}}, 'ops': progs[0] if progs else []})
+            continue
+        for j, line in enumerate(lines):
+            got = json.loads(line)
+            if got != ref[j]:
+                idx = next((t for t in range(min(len(got), len(ref[j]))) if got[t] != ref[j][t]), 0)
+                fails.append({'seed': seed, 'k': 'hashseed-%s-prog-%d' % (hs, j),
+                              'failure': {'clause': 'output-depends-on-hash-seed-or-process', 'idx': idx,
+                                          'detail': {'hashseed': hs}}, 'ops': progs[j][:idx + 1]})
+                break
+    # static side: the library reads no clock, entropy source, object identity or hash value
+    import re
+    import glob as _glob
+    src = os.path.join(os.environ.get('H2_SRC', '/repo/src'), 'h2')
+    pat = re.compile(r'^\s*(import|from)\s+(time|random|secrets|uuid|datetime)\b|os\.urandom|\bid\(|\bhash\(|getrandbits|time\.time')
+    hits = []
+    for path in sorted(_glob.glob(os.path.join(src, '*.py'))):
+        for ln, line in enumerate(open(path, encoding='utf-8'), 1):
+            code = line.split('#', 1)[0]
+            if pat.search(code):
+                hits.append('%s:%d: %s' % (os.path.basename(path), ln, line.strip()[:80]))
+    if hits:
+        fails.append({'seed': seed, 'k': 'static-scan', 'failure': {'clause': 'nondeterminism-source-in-library', 'idx': 0,
+                      'detail': {'hits': hits[:5]}}, 'ops': []})
+    return {'failures': fails, 'mismatches': [],
+            'coverage': {'determinism_programs': len(progs), 'interpreter_processes': runs, 'hash_seeds': hashseeds,
+                         'static_scan_files': len(_glob.glob(os.path.join(src, '*.py'))), 'static_scan_hits': len(hits)}}
